@@ -92,12 +92,13 @@ theorem C02_grant_obligation (s s' : PSys) (i c : Nat) (h : applyEvent s (.grant
       upToDate r.lastTerm r.lastIdx (s.nodes i).log = true := by
   simp only [applyEvent, ok] at h
   split at h
-  · rename_i hg
-    refine ⟨hg.2.2.2.1, ?_⟩
-    have := hg.2.2.2.2.2
-    simp only [List.any_eq_true, decide_eq_true_eq, Bool.and_eq_true] at this
-    obtain ⟨r, hr, h1⟩ := this
-    exact ⟨r, hr, h1.1, h1.2.1, h1.2.2⟩
+  · rename_i r hr
+    split at h
+    · rename_i hg
+      have hp := List.find?_some hr
+      simp only [decide_eq_true_eq] at hp
+      exact ⟨hg.2.2.2.1, r, List.mem_of_find?_eq_some hr, hp.1, hp.2.1, hp.2.2⟩
+    · cases h
   · cases h
 
 /-- the statement with the voter set changing while elections run — not proved in this round -/
@@ -109,8 +110,8 @@ def C02_full_statement : Prop :=
 def c3 : Cfg := ⟨[1, 2, 3], []⟩
 
 def history : List Event :=
-  [.bump 1 1, .campaign 1, .rdy 1, .persist 1 1, .release 1 (.grant 1 1 1), .release 1 (.voteReq 1 1 0 0),
-   .bump 2 1, .grant 2 1, .rdy 2, .crash 3, .persist 2 1, .release 2 (.grant 1 2 1), .restart 3,
+  [.bump 1 1, .campaign 1, .rdy 1, .persist 1 1, .release 1 (.grant 1 1 1 {}), .release 1 (.voteReq 1 1 0 0),
+   .bump 2 1, .grant 2 1, .rdy 2, .crash 3, .persist 2 1, .release 2 (.grant 1 2 1 {}), .restart 3,
    .win 1 c3 [1, 2]]
 
 example : (match run init history with | .ok s => s.elected | .error _ => []) = [(1, 1)] := by decide
@@ -119,7 +120,7 @@ example : (match run init history with | .ok s => (s.nodes 1).role | .error _ =>
 
 /-- a second candidate cannot win the same term: node 2 already granted node 1 -/
 example : (match run init (history ++ [.bump 3 1, .campaign 3, .rdy 3, .persist 3 1,
-    .release 3 (.grant 1 3 3), .release 3 (.voteReq 1 3 0 0), .grant 2 3]) with
+    .release 3 (.grant 1 3 3 {}), .release 3 (.voteReq 1 3 0 0), .grant 2 3]) with
     | .ok _ => "accepted" | .error _ => "rejected") = "rejected" := by decide
 
 end RaftProps.C02
